@@ -21,7 +21,7 @@ RULE = (
     "blocks that are scalars, vectors and several keys in non-sorted listing order x current points from the "
     "target and from its tails x step sizes over three decades; kernels driven through the protocol under "
     "jit+vmap (hundreds of keys per state) and through the engine. Second monitor: 20 000 proposals at a fixed "
-    "state against the stated proposal law (two-stage z-tests). Also: user proposal with state-dependent bounded support (irreversible moves declare a -inf correction); targets with bounded support entered from zero-density points; a 24-dimensional IWLS block at step size 0.02. non-trivial = proposal with |log alpha| > 0.05; "
+    "state against the stated proposal law (two-stage z-tests). Also: user proposal with state-dependent bounded support (irreversible moves declare a -inf correction); targets with bounded support entered from zero-density points; a 24-dimensional IWLS block at step size 0.02. Round 5: kernel-state step size different from the constructed one. non-trivial = proposal with |log alpha| > 0.05; "
     "distinct by (configuration, key)"
 )
 REQUIRED = ["reported_alpha_equals_mh_ratio", "accepted_state_is_proposal", "proposal_law_matches_stated_q",
